@@ -132,8 +132,15 @@ Definition var_key (seg : str) : str := rstrip_c RBRACE (strip_left [LBRACE] seg
 (* ResourcePath.get: None = KeyError *)
 Definition rp_get (vars : dict) (seg : str) : option str := dget vars (var_key seg).
 
-(* the zip loop; None = KeyError *)
-Fixpoint zip_match (lv rv : dict) (l r : list str) : option bool :=
+(* str.removesuffix(s): at most one trailing s goes (checks.py:662 since e735a769) *)
+Definition remove_suffix_s (s : str) : str :=
+  match rev s with
+  | c :: t => if N.eqb c LOWER_S then rev t else s
+  | [] => s
+  end.
+
+(* the zip loop; None = KeyError.  norm is the normalisation applied to two unequal literal segments *)
+Fixpoint zip_match_with (norm : str -> str) (lv rv : dict) (l r : list str) : option bool :=
   match l, r with
   | a :: l', b :: r' =>
     if starts_brace a && starts_brace b then
@@ -142,17 +149,25 @@ Fixpoint zip_match (lv rv : dict) (l r : list str) : option bool :=
       | Some x =>
         match rp_get rv b with
         | None => None
-        | Some y => if str_eqb x y then zip_match lv rv l' r' else Some false
+        | Some y => if str_eqb x y then zip_match_with norm lv rv l' r' else Some false
         end
       end
-    else if negb (str_eqb a b) && negb (str_eqb (rstrip_c LOWER_S a) (rstrip_c LOWER_S b)) then Some false
-    else zip_match lv rv l' r'
+    else if negb (str_eqb a b) && negb (str_eqb (norm a) (norm b)) then Some false
+    else zip_match_with norm lv rv l' r'
   | _, _ => Some true
   end.
 
-Definition is_prefix (lp : str) (lv : dict) (rp : str) (rv : dict) : option bool :=
+Definition is_prefix_with (norm : str -> str) (lp : str) (lv : dict) (rp : str) (rv : dict) : option bool :=
   if Nat.ltb (length (parts rp)) (length (parts lp)) then Some false
-  else zip_match lv rv (parts lp) (parts rp).
+  else zip_match_with norm lv rv (parts lp) (parts rp).
+
+(* the code as it is *)
+Definition zip_match := zip_match_with remove_suffix_s.
+Definition is_prefix := is_prefix_with remove_suffix_s.
+
+(* SENTINEL, not the code: the rule before e735a769 (left.rstrip(s) != right.rstrip(s), every trailing s stripped).
+   Kept so that a regression to it is recognised by name: finding C18-F3 (fixed). *)
+Definition is_prefix_rstrip := is_prefix_with (rstrip_c LOWER_S).
 
 Definition is_prefix_n (a b : node) : option bool := is_prefix (n_path a) (pp_of a) (n_path b) (pp_of b).
 
@@ -379,13 +394,13 @@ Definition parent_2xx (h : history) (d : node) : bool :=
 Definition delete_agrees_with_parent (h : history) : bool :=
   forallb (fun d => negb (has_method M_DELETE d) || Bool.eqb (parent_2xx h d) (succeeded d)) h.
 
-(* F3: no two segments that differ only in trailing s characters, identifiers resolve *)
+(* F7: no two segments that differ only in one trailing s, identifiers resolve *)
 Fixpoint seg_region (lv rv : dict) (l r : list str) : bool :=
   match l, r with
   | a :: l', b :: r' =>
     (if starts_brace a && starts_brace b then
        match rp_get lv a, rp_get rv b with Some _, Some _ => true | _, _ => false end
-     else str_eqb a b || negb (str_eqb (rstrip_c LOWER_S a) (rstrip_c LOWER_S b)))
+     else str_eqb a b || negb (str_eqb (remove_suffix_s a) (remove_suffix_s b)))
     && seg_region lv rv l' r'
   | _, _ => true
   end.
